@@ -1091,9 +1091,11 @@ class MultiTestResult(TestResult):
     """A test result that dispatches to many test results."""
 
     def __init__(self, *results):
-        # Setup _results first, as the base class __init__ assigns to failfast.
+        # Setup _results first, as the base class __init__ assigns to failfast
+        # (which is dispatched to every result): keep failfast on if any of the
+        # results was configured with it instead of silently switching it off.
         self._results = list(map(ExtendedToOriginalDecorator, results))
-        super().__init__()
+        super().__init__(failfast=any(result.failfast for result in self._results))
 
     def __repr__(self):
         return "<{} ({})>".format(
